@@ -387,6 +387,11 @@ class PShuffleInput(PStochasticPattern):
     def __repr__(self):
         return ("PShuffleInput(%s, %s)" % (repr(self.pattern), self.every))
 
+    def reset(self):
+        super().reset()
+        self.values = []
+        self.pos = 0
+
     def __next__(self):
         if self.pos >= len(self.values):
             self.pos = 0
